@@ -6,6 +6,8 @@ translator regenerates from field.rs.
 import ZeepVerif.RustLex
 import ZeepVerif.Generated.Tables
 import ZeepVerif.Model.Emit
+import ZeepVerif.Lemmas.Literal
+import ZeepVerif.Lemmas.Ident
 
 namespace ZeepVerif.Props.C14
 open ZeepVerif ZeepVerif.RustLex ZeepVerif.Generated ZeepVerif.Model
@@ -59,7 +61,261 @@ theorem c14_numeric_facet_is_number (ty name : String) (v : String) :
   · right; exact ⟨_, rfl⟩
   · left; rfl
 
+/-! ### literals and comments: the three forms in which schema text is written out -/
+
+open ZeepVerif.Lemmas.Literal in
+/-- **any text rendered with `{:?}` is one string literal evaluating to that text**, whatever follows it
+    in the output: the literal ends at its own closing quote and nowhere earlier -/
+theorem c14_literal (s : String) (rest : List Char) :
+    lexStrLit ((rustDebugStr s).toList ++ rest) = some (s.toList, rest) := by
+  simp only [rustDebugStr, String.toList_ofList]
+  exact lex_debug_literal s.toList rest
+
+open ZeepVerif.Lemmas.Literal in
+/-- **every line written for a documentation text is one line comment** that ends at the newline the
+    writer puts after it — no documentation text can end the comment early or contain a bare CR -/
+theorem c14_doc_line (c l : String) (hl : l ∈ docLines c) (rest : List Char) :
+    lexLineComment (("/// " ++ l ++ "\n").toList ++ rest) = some ('/' :: ' ' :: l.toList, '\n' :: rest) := by
+  simp only [docLines, List.mem_map] at hl
+  obtain ⟨cs, hcs, rfl⟩ := hl
+  have h := docLines_no_terminator c.toList cs hcs
+  have := lex_doc_line cs rest h.1 h.2
+  simpa [String.toList_append] using this
+
+/-- the chunks written for a documentation text are exactly those lines -/
+theorem c14_comment_chunks (c : String) :
+    writeCommentLines (some c) = (docLines c).map (fun l => "/// " ++ l ++ "\n") := rfl
+
+open ZeepVerif.Lemmas.Literal in
+/-- **the comment that carries an operation name is one block comment for every name**: neither `*/` nor
+    a nested `/*` survives in it, so it is closed by the writer's own ` */` -/
+theorem c14_operation_comment (op : String) (rest : List Char) :
+    lexBlockComment (("/* " ++ String.ofList (Text.commentText op.toList) ++ " */").toList ++ rest) = some rest := by
+  have := lex_operation_comment op.toList rest
+  simpa [String.toList_append] using this
+
+/-- enumeration values are written as `{:?}` literals, one per line, and in no other form -/
+theorem c14_enumeration_chunks (r : Restr) (e : List String) (h : r.enumeration = some e) :
+    ∃ pre post, writeRestrictions r =
+      pre ++ (["   enumeration: Some(vec![\n"] ++ e.map (fun v => "      " ++ rustDebugStr v ++ ".to_string(),\n") ++ ["   ]),\n"]) ++ post := by
+  unfold writeRestrictions
+  rw [h]
+  refine ⟨["Rc::new(restrictions::Restrictions {\n"] ++ writeNumericFacet "i32" "min_inclusive" r.minInclusive
+      ++ writeNumericFacet "i32" "max_inclusive" r.maxInclusive ++ writeNumericFacet "i32" "min_exclusive" r.minExclusive
+      ++ writeNumericFacet "i32" "max_exclusive" r.maxExclusive ++ writeNumericFacet "usize" "length" r.length
+      ++ writeNumericFacet "usize" "min_length" r.minLength ++ writeNumericFacet "usize" "max_length" r.maxLength,
+    ["   ..Default::default()\n", "})\n"], ?_⟩
+  simp only [List.append_assoc]
+
+/-- the endpoint address is written as a `{:?}` literal (tenth chunk of the service), never between bare quotes -/
+theorem c14_location_chunk (s : Service) :
+    (writeService s)[9]? = some ("            location: " ++ rustDebugStr s.location ++ ".to_string(),\n") := by
+  simp [writeService]
+
+/-- the soapAction value is written as a `{:?}` literal -/
+theorem c14_action_chunk (operationName : String) (op : BindOp) (action : String) :
+    (writeSoapAction operationName op action)[1]? = some ("    let url = " ++ rustDebugStr action ++ ";\n") := by
+  simp [writeSoapAction]
+
+/-! ### identifiers: every ASCII name becomes a legal identifier -/
+
+section Identifiers
+open ZeepVerif.Lemmas.Ident ZeepVerif.Inflector
+
+theorem kw_heads : ∀ k ∈ keywords, ∃ c cs, k.toList = c :: cs ∧ (isLowerA c = true ∨ k = "Self") := by
+  simp [keywords, strictKeywords, reservedKeywords, isLowerA]
+
+theorem snakeOk_cont (c : Char) (h : snakeOk c = true) : isIdentCont c = true := by
+  simp only [snakeOk, Bool.or_eq_true, beq_iff_eq] at h
+  simp only [isIdentCont, isIdentStart, Bool.or_eq_true, beq_iff_eq]
+  rcases h with (h | h) | h
+  · exact Or.inl (Or.inl (Or.inl h))
+  · exact Or.inr h
+  · exact Or.inl (Or.inr h)
+
+theorem iok_cons (c : Char) (cs : List Char) (h : c ≠ '_' ∨ cs ≠ []) :
+    isIdentOrKeywordChars (c :: cs) = (isIdentStart c && cs.all isIdentCont) := by
+  unfold isIdentOrKeywordChars
+  split
+  · next heq => cases heq
+  · next heq =>
+    simp only [List.cons.injEq] at heq
+    rcases h with h | h
+    · exact absurd heq.1 h
+    · exact absurd heq.2 h
+  · next c' cs' _ _ heq =>
+    simp only [List.cons.injEq] at heq
+    obtain ⟨rfl, rfl⟩ := heq
+    rfl
+
+theorem not_keyword_of_head (s : String) (c : Char) (cs : List Char) (hs : s.toList = c :: cs)
+    (hl : isLowerA c = false) (hS : c ≠ 'S') : keywords.contains s = false := by
+  rw [Bool.eq_false_iff]
+  intro hc
+  have hm : s ∈ keywords := by simpa using hc
+  obtain ⟨c', cs', hk, h⟩ := kw_heads s hm
+  rw [hs] at hk
+  simp only [List.cons.injEq] at hk
+  rcases h with h | h
+  · rw [← hk.1, hl] at h; cases h
+  · subst h
+    simp at hs
+    exact hS hs.1.symm
+
+/-- **the field name made from any ASCII name is a legal identifier token** (a raw identifier for a
+    keyword, a suffixed one where raw is not allowed, `_`-prefixed when it would start with a digit) -/
+theorem c14_field_name_is_ident (n : String) (h : Ascii n.toList) : isIdent (asFieldName n) = true := by
+  obtain ⟨hch, hhead⟩ := snake_chars n h
+  unfold asFieldName
+  simp only
+  cases hs : (toSnakeCase n).toList with
+  | nil => simp [isIdent, isIdentChars, isIdentOrKeywordChars, isIdentStart, isIdentCont, isLowerA, isUpperA, isDigitA, keywords, strictKeywords, reservedKeywords]
+  | cons c cs =>
+    rw [hs] at hch hhead
+    have hcont : (c :: cs).all isIdentCont = true := by
+      rw [List.all_eq_true]; intro x hx; exact snakeOk_cont x (hch x hx)
+    simp only
+    by_cases hd : isDigitA c = true
+    · simp only [hd, if_true]
+      have htl : ("_" ++ toSnakeCase n).toList = '_' :: c :: cs := by simp [String.toList_append, hs]
+      have hnk := not_keyword_of_head ("_" ++ toSnakeCase n) '_' (c :: cs) htl (by decide) (by decide)
+      unfold isIdent isIdentChars
+      rw [htl]
+      have : String.ofList ('_' :: c :: cs) = "_" ++ toSnakeCase n := by rw [← htl]; simp
+      rw [this, hnk, iok_cons _ _ (Or.inr (by simp)), hcont]
+      simp [isIdentStart]
+    · have hd' : isDigitA c = false := by simpa using hd
+      simp only [hd', Bool.false_eq_true, if_false]
+      unfold renameKeywords
+      cases hfind : Tables.keywordTable.find? (fun kv => kv.1 == toSnakeCase n) with
+      | some kv =>
+        simp only
+        have hm := List.mem_of_find?_eq_some hfind
+        have := c14_keyword_values_legal
+        rw [List.all_eq_true] at this
+        exact this kv hm
+      | none =>
+        simp only
+        have hc_ne : c ≠ '_' := by
+          intro e; apply hhead; simp [e]
+        have hcl : isLowerA c = true := by
+          have := hch c (by simp)
+          simp only [snakeOk, Bool.or_eq_true, beq_iff_eq] at this
+          rcases this with (h1 | h1) | h1
+          · exact h1
+          · rw [hd'] at h1; cases h1
+          · exact absurd h1 hc_ne
+        have hnk : keywords.contains (toSnakeCase n) = false := by
+          rw [Bool.eq_false_iff]
+          intro hc
+          have hcov := c14_keywords_covered
+          rw [List.all_eq_true] at hcov
+          have := hcov (toSnakeCase n) (by simpa using hc)
+          simp only [Bool.or_eq_true, beq_iff_eq, List.any_eq_true] at this
+          rcases this with e | ⟨kv, hkv, hk⟩
+          · rw [e] at hs
+            simp at hs
+            rw [← hs.1] at hcl
+            revert hcl; decide
+          · rw [List.find?_eq_none] at hfind
+            exact hfind kv hkv (by simpa using hk)
+        unfold isIdent isIdentChars
+        rw [hs]
+        split
+        · next rest heq =>
+          simp only [List.cons.injEq] at heq
+          have : snakeOk '#' = true := hch '#' (by rw [heq.2]; simp)
+          exact absurd this (by decide)
+        · simp only [String.ofList_toList, ← hs, hnk]
+          rw [hs, iok_cons _ _ (Or.inl hc_ne)]
+          have : cs.all isIdentCont = true := by
+            rw [List.all_eq_true] at hcont ⊢
+            intro x hx; exact hcont x (by simp [hx])
+          simp [isIdentStart, hcl, this]
+
+theorem pascalOk_cont (c : Char) (h : pascalOk c = true) : isIdentCont c = true := by
+  simp only [pascalOk, Bool.or_eq_true] at h
+  simp only [isIdentCont, isIdentStart, Bool.or_eq_true, beq_iff_eq]
+  rcases h with (h | h) | h
+  · exact Or.inl (Or.inl (Or.inr h))
+  · exact Or.inl (Or.inl (Or.inl h))
+  · exact Or.inr h
+
+theorem not_keyword_of_upper (s : String) (c : Char) (cs : List Char) (hs : s.toList = c :: cs)
+    (hl : isLowerA c = false) (hne : s ≠ "Self") : keywords.contains s = false := by
+  rw [Bool.eq_false_iff]
+  intro hc
+  have hm : s ∈ keywords := by simpa using hc
+  obtain ⟨c', cs', hk, h⟩ := kw_heads s hm
+  rw [hs] at hk
+  simp only [List.cons.injEq] at hk
+  rcases h with h | h
+  · rw [← hk.1, hl] at h; cases h
+  · exact hne h
+
+/-- **the type name made from any ASCII name is a legal identifier token** -/
+theorem c14_type_name_is_ident (n : String) (h : Ascii n.toList) : isIdent (xmlNameToRustName n) = true := by
+  obtain ⟨hch, hhead⟩ := pascal_chars n h
+  unfold xmlNameToRustName
+  simp only
+  cases hs : (toPascalCase n).toList with
+  | nil => simp [isIdent, isIdentChars, isIdentOrKeywordChars, isIdentStart, isIdentCont, isLowerA, isUpperA, isDigitA, keywords, strictKeywords, reservedKeywords]
+  | cons c cs =>
+    rw [hs] at hch hhead
+    have hcont : (c :: cs).all isIdentCont = true := by
+      rw [List.all_eq_true]; intro x hx; exact pascalOk_cont x (hch x hx)
+    have hfirst := hhead c (by simp)
+    simp only
+    by_cases hd : isDigitA c = true
+    · simp only [hd, if_true]
+      have htl : ("_" ++ toPascalCase n).toList = '_' :: c :: cs := by simp [String.toList_append, hs]
+      have hnk := not_keyword_of_head ("_" ++ toPascalCase n) '_' (c :: cs) htl (by decide) (by decide)
+      unfold isIdent isIdentChars
+      rw [htl]
+      have : String.ofList ('_' :: c :: cs) = "_" ++ toPascalCase n := by rw [← htl]; simp
+      rw [this, hnk, iok_cons _ _ (Or.inr (by simp)), hcont]
+      simp [isIdentStart]
+    · have hd' : isDigitA c = false := by simpa using hd
+      simp only [hd', Bool.false_eq_true, if_false]
+      have hup : isUpperA c = true := by simpa [hd'] using hfirst
+      by_cases hself : (toPascalCase n == "Self") = true
+      · simp only [hself, if_true]
+        simp [isIdent, isIdentChars, isIdentOrKeywordChars, isIdentStart, isIdentCont, isLowerA, isUpperA, isDigitA, keywords, strictKeywords, reservedKeywords]
+      · simp only [hself, Bool.false_eq_true, if_false]
+        have hne : toPascalCase n ≠ "Self" := by simpa using hself
+        have hlow : isLowerA c = false := by
+          have hc128 : isUpperA c = true := hup
+          simp only [isUpperA, isLowerA, Bool.and_eq_true, decide_eq_true_eq] at hc128 ⊢
+          rw [Bool.eq_false_iff]
+          intro hl
+          simp only [Bool.and_eq_true, decide_eq_true_eq] at hl
+          have h1 := hc128.2
+          have h2 := hl.1
+          exact absurd (Char.le_trans h2 h1) (by decide)
+        have hnk := not_keyword_of_upper (toPascalCase n) c cs hs hlow hne
+        have hc_ne : c ≠ '_' := by
+          intro e; rw [e] at hup; revert hup; decide
+        unfold isIdent isIdentChars
+        rw [hs]
+        split
+        · next rest heq =>
+          simp only [List.cons.injEq] at heq
+          rw [heq.1] at hup
+          exact absurd hup (by decide)
+        · simp only [String.ofList_toList, ← hs, hnk]
+          rw [hs, iok_cons _ _ (Or.inl hc_ne)]
+          have : cs.all isIdentCont = true := by
+            rw [List.all_eq_true] at hcont ⊢
+            intro x hx; exact hcont x (by simp [hx])
+          simp [isIdentStart, hup, this]
+
+end Identifiers
+
 /-! non-vacuity -/
+example : lexStrLit ((rustDebugStr "a\"; fn marker() {} //\\").toList ++ "; x".toList) = some ("a\"; fn marker() {} //\\".toList, "; x".toList) :=
+  c14_literal _ _
+example : (String.ofList (Text.commentText "a*/ fn marker() {} /*".toList)) = "a* / fn marker() {} / *" := by decide
+
 example : renameKeywords "type" = "r#type" ∧ renameKeywords "self" = "self_" ∧ renameKeywords "name" = "name" := by decide
 
 end ZeepVerif.Props.C14
